@@ -629,7 +629,7 @@ def start_reassign_tlc(ctx):
     return jobs
 
 
-def run_reassign(ctx, jobs=None):
+def run_reassign(ctx, jobs=None, keep=None):
     """Reassign part of Families.tla: TLC checks ReassignIsFresh on the state graph Evaluate / Assign(unit) of every pair of
     configurations and emits, per order of the assignment units, the expected case after every assignment."""
     from cuqiverif import families_common as fc, tlc
@@ -647,6 +647,8 @@ def run_reassign(ctx, jobs=None):
             raise
     ctx.model_must_hold(res, "Families/reassign")
     cases = [c for c in res.cases if c.get("kind") == "reassign"]
+    if keep is not None:
+        keep.extend(cases)
     tlc.cleanup(res)
     ctx.observations.setdefault("deviation_runs", {})["Families.reassign_stale.deviation.cfg"] = "StaleCacheAfterAssign -> ReassignIsFresh"
     per = {}
@@ -688,9 +690,10 @@ def dispatch(ctx, un, case, mrf_cache=None):
 
 
 def run(ctx):
-    from cuqiverif import families_common as fc, tlc
+    from cuqiverif import families_common as fc, tlc, c04_round6 as r6
     from cuqiverif.core import MachineryError
     re_jobs = start_reassign_tlc(ctx)
+    r6_jobs = r6.start_tlc(ctx)
     try:
         res = fc.run_families(ctx, fams=C04_FAMS)
     except BaseException:
@@ -699,6 +702,7 @@ def run(ctx):
                 tlc.cleanup(f.result())
             except BaseException:           # noqa: BLE001
                 pass
+        r6.discard_tlc(r6_jobs)
         raise
     ctx.model_must_hold(res, "Families")
     cases = list(res.cases)
@@ -726,7 +730,14 @@ def run(ctx):
             for c in sorted(fams[fam], key=fc.case_id):      # canonical order (TLC's emission order is scheduling-dependent)
                 dispatch(ctx, un, c)
                 n += 1
-    n += run_reassign(ctx, re_jobs)
+    re_cases = []
+    try:
+        n += run_reassign(ctx, re_jobs, keep=re_cases)
+    except BaseException:
+        r6.discard_tlc(r6_jobs)
+        raise
+    # parts Siblings / Buffers / Live (round 6): behaviours of FamiliesSib.tla / DiffOpsLive.tla on the cases of the lattice
+    r6.run(ctx, r6_jobs, re_cases, cases)
     ctx.observations["cases_per_family"] = {f: len(v) for f, v in fams.items()}
     for f in ("Cauchy", "Gaussian", "GMRF"):
         c = sorted(fams[f], key=fc.case_id)[len(fams[f]) // 2]
@@ -737,7 +748,7 @@ def run(ctx):
                 "expected values; distinct non-trivial = distinct (quantity, case, way of passing parameters, sparse threshold, "
                 "form of x) evaluated on the real objects")
     ctx.exhaustive = True
-    ctx.traces = n
+    ctx.traces += n
     ctx.assumptions += ["the documented density formulas integrate to one (textbook mathematics, trusted)",
                         "log 2, log 3, ..., log pi, log log 2 are evaluated by libm; linear independence of the atoms",
                         "scipy.stats.multivariate_normal.cdf accuracy (abseps 1e-5) for multivariate Gaussian cdfs",
@@ -752,4 +763,7 @@ def replay(ctx, case):
         return check_reassign(ctx, case, set())
     if case.get("kind") == "reassign_step":
         return check_reassign(ctx, case["rc"], set())
+    if case.get("kind") == "r6":
+        from cuqiverif import c04_round6 as r6
+        return r6.replay(ctx, case)
     dispatch(ctx, _Unnorm(), case, mrf_cache={})
